@@ -294,6 +294,16 @@ func registerIntrinsics(M map[string]Model) {
 		}
 		return a[1]
 	})
+	I("RunConcurrently", func(m *Machine, fr *Frame, a []Value) Value {
+		sl := a[0].(Agg)
+		n := int(m.concretize(sl[1].(*Term), "RunConcurrently arity"))
+		var fns []*Term
+		for i := 0; i < n; i++ {
+			fns = append(fns, m.loadBits(m.addOff(sl[0].(*Term), int64(8*i)), 8))
+		}
+		m.runConcurrently(fr, fns)
+		return nil
+	})
 	I("Phase", func(m *Machine, fr *Frame, a []Value) Value {
 		m.phase = m.mustGoString(a[0], "phase")
 		return nil
